@@ -97,3 +97,78 @@ Proof.
     destruct (holds e (r_conds q)); [reflexivity|]. rewrite (E2 eq_refl). cbn [snd]. rewrite app_nil_r. reflexivity.
   - cbn [app]. destruct k; apply IH.
 Qed.
+
+Theorem rules_next2_ok prog : Fb_next2 prog = true -> forall W,
+  exists rows xs, model prog W = Some rows /\ singles rows = Some xs /\ Permutation xs (rdr prog W).
+Proof.
+  unfold Fb_next2. intros H W. apply andb_prop in H. destruct H as [HG Hs].
+  destruct (split_root_next2 prog) as [[prog' q]|] eqn:Esp; [|discriminate].
+  destruct (split_root_next2_spec _ _ _ Esp) as [cs [tg [body' [-> [-> [Hn [Hnq Hor]]]]]]].
+  set (prog' := Rule cs tg body') in *. set (prog := Rule cs tg (body' ++ [(KNext, q)])) in *.
+  destruct (Gb_spec prog HG) as [h [t [Hb [Hr [He Hnd]]]]].
+  unfold prog in He. rewrite (tree_of_root_next2 cs tg body' q Hor) in He. fold prog' in He.
+  destruct t as [|id s l r]; [discriminate He|]. cbn [erase] in He.
+  injection He as Es El Er. subst s.
+  assert (Hmq : met q = tree_of q) by (unfold tree_of; rewrite (tlevel_only_refs q KAlt None Hor); reflexivity).
+  assert (Hpel : forall e, pe l e = pe (tree_of prog') e) by (intros e; rewrite <- El; symmetry; apply pe_erase).
+  assert (Hper : forall e, pe r e = pe (tree_of q) e) by (intros e; rewrite <- Hmq, <- Er; symmetry; apply pe_erase).
+  assert (Hnfl : nextfree l = true) by (rewrite <- nextfree_erase, El; apply (pe_tree_of prog' (0, 0)%Z Hn)).
+  assert (Hnfr : nextfree r = true) by (rewrite <- nextfree_erase, Er, Hmq; apply (pe_tree_of q (0, 0)%Z Hnq)).
+  unfold model. rewrite Hb, Hr.
+  exists (run W (Node id SNext l r)).
+  rewrite (run_root_next_tree W id l r Hnfl Hnfr Hnd).
+  set (h1 := fun ie : nat * elem =>
+               if fst (pe l (snd ie)) then tagsrows (fst ie) (rdr1 q (snd ie)) else tagsrows (fst ie) (rdr1 prog' (snd ie))).
+  set (h2 := fun ie : nat * elem =>
+               if fst (pe l (snd ie)) then [] else tagsrows (fst ie) (rdr1 q (snd ie))).
+  assert (Hfacts : forall e,
+     let (fl, cl) := pe l e in let (fr, cr) := pe r e in
+     rdr1 prog' e = (if fl then [] else cl) /\ length (rdr1 prog' e) <= 1 /\
+     rdr1 q e = (if fr then [] else cr) /\ length (rdr1 q e) <= 1 /\
+     (fl = false -> fr = false -> nonempty cl && set_eqb cl cr = false)).
+  { intros e. destruct (pe_tree_of prog' e Hn) as [_ [Hr1 Hl1]]. rewrite <- Hpel in Hr1.
+    destruct (pe_tree_of q e Hnq) as [_ [Hr2 Hl2]]. rewrite <- Hper in Hr2.
+    destruct (pe l e) as [fl cl]. destruct (pe r e) as [fr cr]. cbn [fst snd] in *.
+    refine (conj Hr1 (conj Hl1 (conj Hr2 (conj Hl2 _)))). intros -> ->. rewrite Hr1 in Hl1. rewrite Hr2 in Hl2.
+    destruct cl as [|a [|a' cl]]; [reflexivity| |simpl in Hl1; lia].
+    destruct cr as [|b [|b' cr]]; [reflexivity| |simpl in Hl2; lia].
+    cbn [nonempty andb]. unfold set_eqb. cbn [forallb memb existsb]. rewrite !orb_false_r, !andb_true_r.
+    destruct (Nat.eqb a b) eqn:Eab; [|reflexivity]. exfalso. apply Nat.eqb_eq in Eab. subst b.
+    assert (Ha1 : In a (tags_of prog')) by (apply (rdr1_tags prog' e); rewrite Hr1; simpl; auto).
+    assert (Ha2 : In a (tags_of q)) by (apply (rdr1_tags q e); rewrite Hr2; simpl; auto).
+    unfold disjointb in Hs. rewrite forallb_forall in Hs. specialize (Hs a Ha2). apply negb_true_iff in Hs.
+    unfold memb in Hs. assert (existsb (Nat.eqb a) (tags_of prog') = true) by (apply existsb_exists; exists a; split; [exact Ha1|apply Nat.eqb_refl]).
+    congruence. }
+  assert (H1 : forall ie, singles (g1 l r ie) = Some (h1 ie)).
+  { intros [i e]. unfold g1, h1. cbn [fst snd]. specialize (Hfacts e).
+    destruct (pe l e) as [fl cl]. destruct (pe r e) as [fr cr]. cbn [fst snd] in *.
+    destruct Hfacts as [F1 [F2 [F3 [F4 _]]]]. destruct fl.
+    - rewrite F3. destruct fr; [reflexivity|]. apply singles_emitq. rewrite <- F3. exact F4.
+    - rewrite F1. apply singles_emitq. rewrite <- F1. exact F2. }
+  assert (H2 : forall ie, singles (g2 l r ie) = Some (h2 ie)).
+  { intros [i e]. unfold g2, h2, covR. cbn [fst snd]. specialize (Hfacts e).
+    destruct (pe l e) as [fl cl]. destruct (pe r e) as [fr cr]. cbn [fst snd] in *.
+    destruct Hfacts as [F1 [F2 [F3 [F4 F5]]]]. destruct fl.
+    - destruct fr; cbn [negb andb]; [reflexivity|].
+      destruct (nonempty cr) eqn:Ene; cbn [negb]; [reflexivity|]. rewrite (empty_union [] cr Ene). reflexivity.
+    - destruct fr; cbn [negb andb]; [rewrite F3; reflexivity|].
+      rewrite (F5 eq_refl eq_refl). cbn [negb]. rewrite F3. apply singles_emitq. rewrite <- F3. exact F4. }
+  exists (flat_map h1 (enum W) ++ flat_map h2 (enum W)). split; [reflexivity|]. split.
+  - apply singles_app; apply singles_flat_map; assumption.
+  - eapply Permutation_trans; [apply flat_map_app_perm|].
+    unfold rdr. assert (Heq : forall ie, h1 ie ++ h2 ie = map (fun tg => (tg, fst ie)) (rdr1 prog (snd ie))).
+    { intros [i e]. unfold h1, h2, prog. cbn [fst snd]. rewrite (rdr1_root_next2 cs tg body' q e Hor). fold prog'.
+      specialize (Hfacts e). destruct (pe l e) as [fl cl]. destruct (pe r e) as [fr cr]. cbn [fst snd] in *.
+      destruct Hfacts as [F1 _]. destruct fl.
+      - rewrite F1. rewrite app_nil_r. reflexivity.
+      - unfold tagsrows. rewrite map_app. reflexivity. }
+    clear - Heq. induction (enum W) as [|ie L IH]; [constructor|]. cbn [flat_map]. rewrite Heq.
+    apply Permutation_app_head. exact IH.
+Qed.
+
+Definition w_next_ref : rule :=
+  Rule (cnd CLe 3) (Some 0) [(KRef, leafr CEq 1 1); (KNext, Rule (cnd CGe 2) (Some 2) [(KRef, leafr CEq 3 3)])].
+Lemma next2_nonvacuous :
+  Fb_next2 w_next_ref = true /\ Fb_next w_next_ref = false /\
+  rdr w_next_ref W8 = [(0, 0); (1, 1); (0, 2); (2, 2); (0, 3); (3, 3); (2, 4); (2, 5); (2, 6); (2, 7)].
+Proof. repeat match goal with |- _ /\ _ => split end; vm_compute; reflexivity. Qed.
